@@ -76,6 +76,8 @@ pub struct ClosedLoopRec {
     pub sent: Vec<(Vec<u8>, dsim::Ns)>,
     pub got: Vec<(Vec<u8>, dsim::Ns)>,
     pub timeouts: u32,
+    pub strays: u32,
+    pub timed_out_requests: Vec<usize>,
 }
 
 thread_local! {
@@ -155,7 +157,10 @@ pub fn config_text(s: &ServerSpec) -> String {
     let mut lines: Vec<(String, String)> = Vec::new();
     lines.push(("interface".into(), s.interface.clone()));
     lines.push(("port".into(), s.port.to_string()));
-    lines.push(("seed".into(), s.seed_hex.clone()));
+    // YAML would read an all-digit seed as a number: quote it (any other seed is written bare,
+    // as in the README)
+    let numeric = !s.seed_hex.is_empty() && s.seed_hex.chars().all(|c| c.is_ascii_digit() || c == 'e' || c == 'E' || c == '.');
+    lines.push(("seed".into(), if numeric { format!("\"{}\"", s.seed_hex) } else { s.seed_hex.clone() }));
     if s.batch_written {
         lines.push(("batch_size".into(), s.batch_size.to_string()));
     }
@@ -678,7 +683,7 @@ fn closed_loop_main(sock_no: u32, protos: Vec<P>, count: u32, think_us: u64, tim
     dsim::with(|w| w.socks[sid].cap = 1 << 16);
     ctx(|c| c.socks.insert(sock_no, sid));
     let idx = ctx(|c| {
-        c.closed_loop.push(ClosedLoopRec { sock: sock_no, sent: vec![], got: vec![], timeouts: 0 });
+        c.closed_loop.push(ClosedLoopRec { sock: sock_no, sent: vec![], got: vec![], timeouts: 0, strays: 0, timed_out_requests: vec![] });
         c.closed_loop.len() - 1
     });
     let mut buf = vec![0u8; 8192];
@@ -689,13 +694,35 @@ fn closed_loop_main(sock_no: u32, protos: Vec<P>, count: u32, think_us: u64, tim
         let t = dsim::now();
         let _ = sock.send_to(&bytes, target);
         ctx(|c| c.closed_loop[idx].sent.push((bytes.clone(), t)));
-        sock.set_read_timeout(Some(Duration::from_millis(timeout_ms))).unwrap();
-        match sock.recv_from(&mut buf) {
-            Ok((n, _)) => {
-                let t = dsim::now();
-                ctx(|c| c.closed_loop[idx].got.push((buf[..n].to_vec(), t)));
+        // wait for the answer to *this* request; anything else (a duplicate or late answer to an
+        // earlier one) is a stray, as it would be for any real client that matches on the nonce
+        let want = r::classify_request(&bytes, &srv).map(|i| i.nonce).unwrap_or_default();
+        let deadline = dsim::now() + timeout_ms * dsim::MS;
+        loop {
+            let left = deadline.saturating_sub(dsim::now());
+            if left == 0 {
+                ctx(|c| c.closed_loop[idx].timeouts += 1);
+                ctx(|c| c.closed_loop[idx].timed_out_requests.push(i as usize));
+                break;
             }
-            Err(_) => ctx(|c| c.closed_loop[idx].timeouts += 1),
+            sock.set_read_timeout(Some(Duration::from_nanos(left))).unwrap();
+            match sock.recv_from(&mut buf) {
+                Ok((n, _)) => {
+                    let t = dsim::now();
+                    let payload = if n >= 12 && &buf[..8] == r::MAGIC { &buf[12..n] } else { &buf[..n] };
+                    let echo = r::decode(payload).ok().and_then(|(m, _)| m.get(r::NONC).map(|x| x.to_vec()));
+                    if echo.as_deref() == Some(&want[..]) || echo.is_none() {
+                        ctx(|c| c.closed_loop[idx].got.push((buf[..n].to_vec(), t)));
+                        break;
+                    }
+                    ctx(|c| c.closed_loop[idx].strays += 1);
+                }
+                Err(_) => {
+                    ctx(|c| c.closed_loop[idx].timeouts += 1);
+                    ctx(|c| c.closed_loop[idx].timed_out_requests.push(i as usize));
+                    break;
+                }
+            }
         }
         if think_us > 0 {
             dsim::sleep(Duration::from_micros(think_us));
